@@ -50,6 +50,17 @@ def literal_text(x):
 
 @st.composite
 def literals(draw):
+    t = draw(unsigned_literals())
+    # a negated literal is folded to a negative constant (signed zero included) that the C and FOAM-text writers must keep
+    return "-" + t if draw(st.integers(0, 5)) == 0 else t
+
+
+def lit_expr(t, ty):
+    return "(-(%s@%s))" % (t[1:], ty) if t.startswith("-") else "(%s@%s)" % (t, ty)
+
+
+@st.composite
+def unsigned_literals(draw):
     k = draw(st.integers(0, 9))
     if k < 5:
         x = abs(draw(st.floats(allow_nan=False, allow_infinity=False)))
@@ -71,16 +82,16 @@ def literals(draw):
         n = draw(st.integers(2 ** 53, 2 ** 54))
         return "%d.0" % (n | 1)
     return draw(st.sampled_from(["0.0", "1.0", "0.1", "2.2250738585072014e-308", "2.2250738585072011e-308", "4.9406564584124654e-324", "2.4703282292062328e-324",
-                                 "1.7976931348623157e308", "9007199254740993.0", "0.3", "1.0e23", "8.41e21", "5.0e-324", "123456789012345678901234567890.0"]))
+                                 "1.7976931348623157e308", "0.0", "0.0", "9007199254740993.0", "0.3", "1.0e23", "8.41e21", "5.0e-324", "123456789012345678901234567890.0"]))
 
 
 def check_batch(tc, lits, ev, h):
     n = len(lits)
     lines = [HEADER]
     for i, t in enumerate(lits):
-        lines.append("pd(%d, (%s@DoubleFloat)::BDFlo);" % (i, t))
+        lines.append("pd(%d, %s::BDFlo);" % (i, lit_expr(t, "DoubleFloat")))
         if abs(float(t)) <= 3.4e38:      # a literal beyond the single range has no defined single value
-            lines.append("pf(%d, (%s@SingleFloat)::BSFlo);" % (n + i, t))
+            lines.append("pf(%d, %s::BSFlo);" % (n + i, lit_expr(t, "SingleFloat")))
     src = "\n".join(lines) + "\n"
     with R.WorkDir("c19-" + h) as wd:
         R.write(os.path.join(wd, "f.as"), src)
@@ -99,10 +110,15 @@ def check_batch(tc, lits, ev, h):
         routes["interp"] = aldor.interp(tc, wd, "f.as", ["-Q0"], lib="axllib", cpu=300)
         fr, exe = aldor.build_exe(tc, wd, "f.as", ["-Q0"], lib="axllib")
         routes["c"] = aldor.run_exe(exe, wd) if fr is None else fr
+        sub2 = os.path.join(wd, "cq2")      # the folded constants written out as C text
+        os.makedirs(sub2)
+        R.write(os.path.join(sub2, "f.as"), src)
+        fr, exe = aldor.build_exe(tc, sub2, "f.as", ["-Q2"], lib="axllib")
+        routes["c-folded"] = aldor.run_exe(exe, sub2) if fr is None else fr
     if aldor.has_error(routes["interp"].text()):
         ev.classes["batch_rejected"] += 1
         return None
-    for k in ("from-ao", "from-fm", "folded"):
+    for k in ("from-ao", "from-fm", "folded", "c-folded"):
         r = routes.get(k)
         if r is not None and (aldor.has_error(r.text()) or aldor.has_fault(r)):
             msg = [l for l in r.text().split("\n") if "Error)" in l][:1]
